@@ -105,7 +105,7 @@ let parse_token tok =
   let bit s = s = "1" in
   match String.split_on_char '.' tok with
   | [ "L"; t ] -> mk (Lock (nh t))
-  | [ "U"; t ] -> mk (Unlock (nh t))
+  | [ "U"; t ] | [ "UBAD"; t ] -> mk (Unlock (nh t))
   | [ "A"; t; w; h ] ->
       let w' =
         match w with
@@ -183,8 +183,39 @@ let handle_trace line name cfgs toks =
   let completed = ref [] (* reverse order *) in
   let st = ref (init cfg) in
   let hidden = ref 0 in
-  let lock_pf = ref None in
   let raw_events = List.filter_map (fun o -> o.ev) obs in
+  (* the property's own predicates evaluated on the logged trace itself, whether or not the LTS
+     accepts it: observed ownership bits, the model-free monitor [raw_discipline], [order_ok] *)
+  let held_pf =
+    let rec go idx = function
+      | [] -> None
+      | { ev = Some ((Access (_, _) | Mutate (_, _, _)) as e); held = Some false; _ } :: _ ->
+          Some (Printf.sprintf "I2-access-without-lock: event#%d %s performed without holding the node lock" idx (ev_str e))
+      | { ev = Some (HookCall _ as e); held = Some true; _ } :: _ ->
+          Some (Printf.sprintf "I3-hook-under-lock: event#%d %s: hook invoked while the invoking thread holds the node lock" idx (ev_str e))
+      | _ :: tl -> go (idx + 1) tl
+    in
+    go 0 obs
+  in
+  let raw_pf =
+    match raw_discipline None raw_events O with
+    | None -> None
+    | Some (n, v) ->
+        let n = int_of_nat n in
+        let e = ev_str (List.nth raw_events n) in
+        Some
+          (match v with
+           | DvExitLocked -> Printf.sprintf "lock-held-at-thread-exit: event#%d %s: the thread returns while it owns the node lock (I1); every later Lock blocks for ever" n e
+           | DvAccessUnlocked -> Printf.sprintf "I2-access-without-lock: event#%d %s by a thread that does not own the node lock" n e
+           | DvHookLocked -> Printf.sprintf "I3-hook-under-lock: event#%d %s by the thread that owns the node lock" n e
+           | DvLockBusy -> Printf.sprintf "lock-while-owned: event#%d %s although the mutex is owned" n e
+           | DvUnlockNotOwner -> Printf.sprintf "unlock-by-non-owner: event#%d %s by a thread that does not own the node lock" n e)
+  in
+  let order_pf =
+    if order_ok raw_events then None
+    else Some "order: a frame was marshalled / transmitted out of the order HookRet < Frame() < Transmit, or a different frame was transmitted"
+  in
+  let prop_pf = match (held_pf, raw_pf, order_pf) with Some c, _, _ | None, Some c, _ | None, None, Some c -> Some c | _ -> None in
   let push e s' = completed := e :: !completed; st := s' in
   let auto_apply t =
     match tx_of !st t with
@@ -231,13 +262,6 @@ let handle_trace line name cfgs toks =
          match o.ev with
          | None -> raise (Rejected (idx, o.raw, "call outside the modelled interface sequence"))
          | Some e ->
-             (* observed ownership vs. the property *)
-             (match (e, o.held) with
-              | (Access (t, _) | Mutate (t, _, _)), Some false when !lock_pf = None ->
-                  lock_pf := Some (Printf.sprintf "I2 event#%d %s performed without holding the node lock" idx (ev_str e))
-              | HookCall t, Some true when !lock_pf = None ->
-                  lock_pf := Some (Printf.sprintf "I3 event#%d %s: hook invoked while the invoking thread holds the node lock" idx (ev_str e))
-              | _ -> ());
              let stepped =
                match step_fn !st e with
                | Some s' -> push e s'; true
@@ -258,7 +282,7 @@ let handle_trace line name cfgs toks =
      Hashtbl.replace kinds "hidden_events_inserted" (!hidden + try Hashtbl.find kinds "hidden_events_inserted" with Not_found -> 0);
      Hashtbl.replace kinds "events_total" (List.length tr + try Hashtbl.find kinds "events_total" with Not_found -> 0);
      note_case ("TR " ^ (if String.length name >= 4 && String.sub name 0 4 = "rand" then "rand" else name)) line;
-     (match !lock_pf with Some c -> pfail line c | None -> ());
+     (match prop_pf with Some c -> pfail line c | None -> ());
      if not (accepts cfg tr) then pfail line "internal: completed trace not accepted";
      if not (order_ok tr) then pfail line "order_ok false: hook < Frame() < transmit order violated";
      if not (discipline_ok (init cfg) tr) then pfail line "discipline_ok false";
@@ -275,15 +299,16 @@ let handle_trace line name cfgs toks =
      note_case ("TR " ^ name) line;
      let clause = Printf.sprintf "event#%d %s rejected: %s ; accepted prefix: %s" idx e why
          (String.concat " " (List.map ev_str (List.rev (match !completed with a :: b :: c :: d :: e :: f :: _ -> [ a; b; c; d; e; f ] | l -> l)))) in
-     (* which property does the rejection falsify? *)
-     let raw_order_bad = not (order_ok raw_events) in
-     let disc =
-       !lock_pf <> None || raw_order_bad
-       || (match List.nth_opt obs idx with Some { ev = Some e; _ } -> is_discipline_event e | Some { ev = None; _ } -> true | None -> false)
+     (* which property does the rejection falsify?  A property predicate that is false on the
+        logged trace itself is reported as such (PFAIL, both properties); otherwise a rejection at
+        a lock / access / hook event falsifies C13, any rejection falsifies C14's protocol, and a
+        protocol-only rejection merely breaks the correspondence for C13 *)
+     let at_discipline_event =
+       match List.nth_opt obs idx with Some { ev = Some e; _ } -> is_discipline_event e | Some { ev = None; _ } -> true | None -> false
      in
-     (match !lock_pf with Some c -> pfail line c | None -> ());
-     if mode = "c13" then (if disc then (if !lock_pf = None then pfail line clause) else disagree line clause)
-     else pfail line clause)
+     (match prop_pf with
+      | Some c -> pfail line (c ^ " ; LTS: " ^ clause)
+      | None -> if mode = "c13" && not at_discipline_event then disagree line clause else pfail line clause))
 
 (* ---------------------------------------------------------------- whole-node lines *)
 
@@ -334,4 +359,140 @@ let handle line =
   | "ST" :: fields -> handle_st line fields
   | _ -> failwith ("unparsable line: " ^ line)
 
-let () = iter_lines handle
+(* ---------------------------------------------------------------- exhaustive model exploration
+
+   `driver gen <file> <limit> <seed>`: breadth-first exploration of the COMPLETE reachable state
+   space of the LTS for the configuration {receiver 1, transmitter 2 (event message, no ticker),
+   application thread 0x10}, message content in {0,1}, with the ghost counters (accepted, ticks,
+   transmitted, aborted, stale) erased from the state identity (they never influence a guard).
+   Every event of the alphabet over these threads is tried in every state.  For every transition
+   found, the trace  (BFS-shortest path to its source) ++ [transition]  is a schedule to be forced
+   on the implementation by the harness (`dir=<file>`); with limit > 0 a seeded sample of that
+   many transitions is written, with limit = 0 all of them.  Prints
+   GEN states=<n> transitions=<n> depth=<n> written=<n>. *)
+
+let tok_of_event = function
+  | Lock t -> Printf.sprintf "L.%x" (i t)
+  | Unlock t -> Printf.sprintf "U.%x" (i t)
+  | Access (t, w) -> Printf.sprintf "A.%x.%s" (i t) (what_str w)
+  | HookCall t -> Printf.sprintf "HC.%x" (i t)
+  | HookRet (t, ok) -> Printf.sprintf "HR.%x.%s" (i t) (b01 ok)
+  | Mutate (t, m, v) -> Printf.sprintf "M.%x.%x.%x" (i t) (i m) (i v)
+  | Recv (t, ok) -> Printf.sprintf "RV.%x.%s" (i t) (b01 ok)
+  | RxFrame t -> Printf.sprintf "RF.%x" (i t)
+  | Lookup (t, k) -> Printf.sprintf "LK.%x.%s" (i t) (b01 k)
+  | RecvErr (t, ok) -> Printf.sprintf "RE.%x.%s" (i t) (b01 ok)
+  | TxInit t -> Printf.sprintf "TI.%x" (i t)
+  | Apply t -> Printf.sprintf "AP.%x" (i t)
+  | GetWake t -> Printf.sprintf "GW.%x" (i t)
+  | Wake t -> Printf.sprintf "WK.%x" (i t)
+  | Accept (t, a) -> Printf.sprintf "AC.%x.%x" (i t) (i a)
+  | TickTake t -> Printf.sprintf "TT.%x" (i t)
+  | Transmit (t, f, ok) -> Printf.sprintf "X.%x.%x.%s" (i t) (i f) (b01 ok)
+  | SetFlag (a, m, b) -> Printf.sprintf "SF.%x.%x.%s" (i a) (i m) (b01 b)
+  | WakeSend (a, m) -> Printf.sprintf "WS.%x.%x" (i a) (i m)
+  | Offer (a, m) -> Printf.sprintf "OF.%x.%x" (i a) (i m)
+  | OfferAbort a -> Printf.sprintf "OA.%x" (i a)
+  | Tick t -> Printf.sprintf "TK.%x" (i t)
+  | Cancel -> "CA"
+  | Done (t, ok) -> Printf.sprintf "DN.%x.%s" (i t) (b01 ok)
+
+let gen () =
+  let file = Sys.argv.(2) in
+  let limit = if Array.length Sys.argv > 3 then int_of_string Sys.argv.(3) else 0 in
+  let seed = if Array.length Sys.argv > 4 then int_of_string Sys.argv.(4) else 1 in
+  let r = nat_of_int 1 and x = nat_of_int 2 and a = nat_of_int 16 in
+  let cfg = cfg_of_list [ (r, RoleRx); (x, RoleTx false); (a, RoleApp) ] in
+  let tids = [ r; x; a ] in
+  let bools = [ true; false ] in
+  let vals = [ O; S O ] in
+  let alphabet =
+    List.concat_map (fun t ->
+        [ Lock t; Unlock t; HookCall t; RxFrame t; TxInit t; Apply t; GetWake t; Wake t; TickTake t; Tick t; OfferAbort t ]
+        @ List.concat_map (fun b -> [ HookRet (t, b); Recv (t, b); Lookup (t, b); RecvErr (t, b); Done (t, b); Access (t, WUnmarshal b); Access (t, WFlag b) ]) bools
+        @ [ Access (t, WHook); Access (t, WTime) ]
+        @ List.concat_map (fun v -> [ Access (t, WFrame v); Mutate (t, x, v) ] @ List.map (fun b -> Transmit (t, v, b)) bools) vals)
+      tids
+    @ [ Cancel; Accept (x, a); WakeSend (a, x); Offer (a, x) ]
+    @ List.map (fun b -> SetFlag (a, x, b)) bools
+  in
+  let erase = function
+    | TTx y -> TTx { y with t_acc = O; t_tk = O; t_txd = O; t_ab = O; t_stale = O }
+    | h -> h
+  in
+  let key s = (s.owner, s.cancelled, s.th r, erase (s.th x), s.th a) in
+  let seen = Hashtbl.create 100000 in
+  (* node: state, reversed path *)
+  let q = Queue.create () in
+  let s0 = init cfg in
+  Hashtbl.replace seen (key s0) ();
+  Queue.add (s0, [], 0) q;
+  let transitions = ref [] in
+  let ntrans = ref 0 and depth = ref 0 in
+  while not (Queue.is_empty q) do
+    let s, path, d = Queue.pop q in
+    if d > !depth then depth := d;
+    List.iter
+      (fun e ->
+        match step_fn s e with
+        | None -> ()
+        | Some s' ->
+            incr ntrans;
+            transitions := (e :: path) :: !transitions;
+            let k = key s' in
+            if not (Hashtbl.mem seen k) then begin
+              Hashtbl.replace seen k ();
+              Queue.add (s', e :: path, d + 1) q
+            end)
+      alphabet
+  done;
+  let all = Array.of_list !transitions in
+  let n = Array.length all in
+  let oc = open_out file in
+  let written = ref 0 in
+  (* Cancel commutes with every event except the `return nil` of a parked transmitter, and a
+     select choice after Cancel cannot be forced on the real select (ctx.Done is ready); so in the
+     path part of a schedule Cancel is moved as late as possible: before the first later
+     Done(t,true) of a transmitter, else to the end of the path (the source state is the same) *)
+  let delay_cancel rev =
+    match rev with
+    | [] -> []
+    | last :: rpath -> (
+        let path = List.rev rpath in
+        if not (List.mem Cancel path) then List.rev rev
+        else
+          let rec split acc = function
+            | Cancel :: tl -> (List.rev acc, tl)
+            | e :: tl -> split (e :: acc) tl
+            | [] -> (List.rev acc, [])
+          in
+          let before, after = split [] path in
+          let rec place acc = function
+            | (Done (t, true) as d) :: tl when t = x -> List.rev acc @ (Cancel :: d :: tl)
+            | e :: tl -> place (e :: acc) tl
+            | [] -> List.rev acc @ [ Cancel ]
+          in
+          let tr = before @ place [] after @ [ last ] in
+          match run (init cfg) tr with Some _ -> tr | None -> List.rev rev)
+  in
+  let emit p =
+    incr written;
+    output_string oc (String.concat " " (List.map tok_of_event (delay_cancel p)));
+    output_char oc '\n'
+  in
+  if limit <= 0 || limit >= n then Array.iter emit all
+  else begin
+    let st = Random.State.make [| seed |] in
+    (* sample without replacement: partial Fisher-Yates *)
+    for k = 0 to limit - 1 do
+      let j = k + Random.State.int st (n - k) in
+      let tmp = all.(k) in
+      all.(k) <- all.(j);
+      all.(j) <- tmp;
+      emit all.(k)
+    done
+  end;
+  close_out oc;
+  Printf.printf "GEN states=%d transitions=%d depth=%d written=%d\n" (Hashtbl.length seen) n !depth !written
+
+let () = if Array.length Sys.argv > 1 && Sys.argv.(1) = "gen" then gen () else iter_lines handle
